@@ -87,7 +87,9 @@ func special(d *drv, mode string, rec *vh.Rec) {
 		}
 		waitFor(2*time.Second, func() bool { return d.pool.Count() == 1 })
 		conn.Send(d.ctx, []byte{0xff, 0xff, 'x'})
-		good := enc(d.w.reportMsg(d.helloID, "target", "p1"))
+		time.Sleep(50 * time.Millisecond) // the refused frame goes first (the frames below use the priority lane)
+		// well-formed reports naming no task: whatever still gets through is dropped by the superior
+		good := enc(d.w.reportMsg(nameUUID("task", "nonexistent", d.w.seed), "target", "p1"))
 		for i := 0; i < 14; i++ {
 			sctx, c := context.WithTimeout(d.ctx, 200*time.Millisecond)
 			conn.SendPriority(sctx, good)
